@@ -11,6 +11,10 @@ MCContextsQuick ==
   {[role |-> r, compress |-> c, failByDrop |-> f, maxFrame |-> 0, maxMsg |-> IF c THEN 0 ELSE 3] :
      r \in {"server", "client"}, c \in BOOLEAN, f \in BOOLEAN}
 
+MCContextsLimits ==
+  {[role |-> r, compress |-> FALSE, failByDrop |-> f, maxFrame |-> l[1], maxMsg |-> l[2]] :
+     r \in {"server", "client"}, f \in BOOLEAN, l \in {<<2, 0>>, <<0, 3>>}}
+
 B0 == {129, 1, 128, 0, 130, 2, 137, 138, 136, 9, 193, 65, 192, 131, 139, 145}
 \* text-fin, text, cont-fin, cont, bin-fin, bin, ping, pong, close, ping-nofin, rsv1 text-fin, rsv1 text, rsv1 cont-fin,
 \* reserved data op 3, reserved control op 11, rsv3 text
